@@ -116,6 +116,7 @@ def run(ctx):
             specs.append(flowcheck.prepare(dict(tag="C07/d%03d" % len(specs), certs=[cert], attempts=4,
                                                 endpoints={"A": {"ca": {"detail_style": [letter, nb]}, "script": [{"kind": kind, "nth": 1, "fault": "acme:unauthorized:403", "repeat": 10 ** 6}]}},
                                                 meta={"family": "long error text", "letter": letter, "bytes": nb, "kind": kind})))
+    specs += flowcheck.prestate_specs("C07")
     specs += hook_exit_specs(ctx.tier, ctx.seed)
     specs += fault_and_hook_specs(ctx.tier, ctx.seed, pos)
     specs += multi_cert_specs(ctx.tier, ctx.seed)
